@@ -389,21 +389,75 @@ func checkOffSize(w *World, r *Report) {
 		c2, ok2 := bconstInt(bo.Y)
 		return ok1 && c1 == 8 || ok2 && c2 == 8
 	}
+	// a comparison between (data length + a) and (1<<(8*offSize) + b), in
+	// either order and with any of < <= > >=: normalised to "X >= 2^(8*offSize)"
+	// (or its negation) with X = data length + c
+	selCompare := func(x *ssa.BinOp) bool {
+		d, ok := p.linOf(x.X).sub(p.linOf(x.Y))
+		if !ok || len(d.t) != 2 {
+			return false
+		}
+		ca, hasAcc := d.t[accAtom]
+		var cs int64
+		hasSh := false
+		for a, c := range d.t {
+			if a == accAtom || a.k != aVal {
+				continue
+			}
+			sh, ok := stripConv(a.v).(*ssa.BinOp)
+			if !ok || sh.Op != token.SHL || !shiftBy8(sh.Y) {
+				continue
+			}
+			if one, ok := bconstInt(sh.X); ok && one == 1 {
+				cs, hasSh = c, true
+			}
+		}
+		if !hasAcc || !hasSh || ca*cs != -1 {
+			return false
+		}
+		// d = ca*acc + cs*SH + k  compared with 0 by x.Op
+		op, k := x.Op, d.k
+		if ca < 0 { // multiply by -1: acc - SH - k  (flipped op) 0
+			k = -k
+			switch op {
+			case token.LSS:
+				op = token.GTR
+			case token.LEQ:
+				op = token.GEQ
+			case token.GTR:
+				op = token.LSS
+			case token.GEQ:
+				op = token.LEQ
+			}
+		}
+		// acc + k op SH
+		var c int64
+		switch op {
+		case token.GEQ, token.LSS: // acc + k >= SH  (or its negation)
+			c = k
+		case token.GTR, token.LEQ: // acc + k > SH  <=>  acc + k - 1 >= SH
+			c = k - 1
+		}
+		bad := ""
+		if c < 1 {
+			bad = fmt.Sprintf("the size of the offsets is chosen for the data length%+d, but the largest offset written is the data length + 1: when the data length is exactly 2^(8k)-1 the last offset does not fit", c)
+		}
+		report(x.Pos(), bad, "comparison with 1<<(8*offSize)")
+		return true
+	}
 	for _, b := range fn.Blocks {
 		for _, in := range b.Instrs {
 			switch x := in.(type) {
 			case *ssa.BinOp:
 				switch x.Op {
-				case token.GEQ, token.LSS:
-					// X >= 1 << (8*offSize)   /   X < 1 << (8*offSize)
-					if sh, ok := stripConv(x.Y).(*ssa.BinOp); ok && sh.Op == token.SHL && shiftBy8(sh.Y) {
-						if c, ok := bconstInt(sh.X); ok && c == 1 {
-							if ok, bad := isSel(x.X); ok {
-								report(x.Pos(), bad, "comparison with 1<<(8*offSize)")
-							}
-						}
+				case token.GEQ, token.LSS, token.LEQ:
+					if selCompare(x) {
+						break
 					}
 				case token.GTR, token.NEQ:
+					if x.Op == token.GTR && selCompare(x) {
+						break
+					}
 					// X >> (8*offSize) > 0
 					if sh, ok := stripConv(x.X).(*ssa.BinOp); ok && sh.Op == token.SHR && shiftBy8(sh.Y) {
 						if c, ok := bconstInt(x.Y); ok && c == 0 {
